@@ -2,6 +2,7 @@ package checks
 
 import (
 	"fmt"
+	"go/types"
 	"sort"
 	"strings"
 
@@ -53,6 +54,8 @@ func checkC01(c *Ctx) *report.Result {
 	arch := map[string]bool{"a": true, "b": true, "c": true, "d": true, "e": true, "h": true, "l": true, "sp": true, "pc": true, "ime": true, "halted": true, "haltbug": true, "stopped": true}
 	// scratch bytes: the uint8 cells the fetch routine zeroes at every fetch
 	scratch := c.scratchCells(m)
+	latches := c.imeLatches(m)
+	r.Extra["ime_latches"] = sortedKeys(latches)
 	r.Extra["scratch_cells"] = sortedKeys(scratch)
 	base, cb := oracle.Base(), oracle.CB()
 	exits := 0
@@ -105,8 +108,8 @@ func checkC01(c *Ctx) *report.Result {
 			var extra []string
 			for cell := range row.Written {
 				n := cell
-				if n == "interrupts.ime" {
-					n = "ime"
+				if n == "interrupts.ime" || latches[n] {
+					n = "ime" // the master enable and the latch that delays EI are one piece of state here (C04 owns the delay)
 				}
 				switch {
 				case n == "f":
@@ -514,4 +517,68 @@ func (c *Ctx) checkFNibble(r *report.Result, m *Machine) {
 	for _, s := range sites {
 		r.Ob("F-nibble", s.ok, "store to F in "+fnName(outerFn(s.at.Parent())), c.pos(s.at), "the stored value "+s.v+" may have a non-zero low nibble")
 	}
+}
+
+// imeLatches finds the boolean CPU cells that delay EI: a cell L such that the
+// fetch routine, entered with L set and the master enable clear, leaves the
+// master enable set and L clear (and, entered with L clear, leaves the master
+// enable clear).  Found by role, so the field's name does not matter.
+func (c *Ctx) imeLatches(m *Machine) map[string]bool {
+	out := map[string]bool{}
+	it := c.W.It
+	stt, _ := m.CPU.T.Underlying().(*types.Struct)
+	if stt == nil || m.NextFn == nil || m.Ints == nil {
+		return out
+	}
+	imePath := ""
+	for _, p := range c.boolCellsOf(m.Ints) {
+		if strings.HasSuffix(p, ".ime") {
+			imePath = p
+		}
+	}
+	if imePath == "" {
+		return out
+	}
+	run := func(field string, set bool) (ime, latch *ai.Bool) {
+		st := c.quietState(m)
+		st.SetCell(m.Ints, imePath, ai.NewConstBool(false))
+		st.SetCell(m.CPU, "."+field, ai.NewConstBool(set))
+		for fn := range c.W.CutFns {
+			fnc := fn
+			it.Intercepts[fnc] = func(s *ai.State, _ ssa.Instruction, _ []ai.Value) (ai.Value, *ai.State) {
+				if fnc.Signature.Results().Len() == 0 {
+					return nil, s
+				}
+				return ai.NewTopInt(8, false, nil), s
+			}
+			defer delete(it.Intercepts, fnc)
+		}
+		keepLocal := func(o *ai.Object) bool { return o.ID > c.W.NObjInit }
+		it.Hooks = ai.Hooks{UnknownCall: func(s *ai.State, at ssa.Instruction) *ai.State { return s.Rebase(c.W.Generic, keepLocal) }}
+		defer func() { it.Hooks = ai.Hooks{} }()
+		_, post := it.CallFunction(st, m.NextFn, []ai.Value{ptrTo(m.CPU)}, nil)
+		if post == nil {
+			return nil, nil
+		}
+		return c.cellBool(post, m.Ints, imePath), c.cellBool(post, m.CPU, "."+field)
+	}
+	isC := func(b *ai.Bool, want bool) bool {
+		if b == nil {
+			return false
+		}
+		v, ok := b.Const()
+		return ok && v == want
+	}
+	for i := 0; i < stt.NumFields(); i++ {
+		f := stt.Field(i)
+		if !isBool(f.Type()) {
+			continue
+		}
+		ime1, l1 := run(f.Name(), true)
+		ime0, _ := run(f.Name(), false)
+		if isC(ime1, true) && isC(l1, false) && isC(ime0, false) {
+			out[f.Name()] = true
+		}
+	}
+	return out
 }
